@@ -4,10 +4,16 @@
    every occurrence of a leg adds the charge once more, other legs are untouched, insertions commute (the order in which the string of an
    n-site correlator is laid does not matter), a second insertion on the same leg adds to the pending charge instead of replacing it, and a
    charge followed by its inverse leaves nothing pending.
+   PROVED on the programs translated from yastn/tn/fpeps/envs/_env_window.py (Gen/WindowGen.v, regenerated on every run): while the string of the first
+   operator of a 2-site measurement passes a site -- in the same row/column and in every later one -- the charge swaps left on that site and its operator
+   slot do NOT depend on whether the pair (first site, this site) is among the requested pairs; a listed site is measured exactly once, with its operator
+   set, and the operator is removed again; the string left behind is the same in both kinds of sweep.  (This is the bookkeeping whose violation gave
+   the wrong signs repaired in e400d3a.)
    NOT proved (validated numerically on every run): the contractions of boundary-MPS / CTM / BP environments, positivity and hermiticity of NTU
    bond metrics, exactness of an evolution step whose truncation does not bind. *)
 From Coq Require Import List ZArith.
 From Yv Require Import Sym.Descr Sym.SymLaws Peps.Swaps.
+From Yv Require Peps.WindowModel Gen.WindowGen.
 Import ListNotations.
 
 Theorem C12_swaps_accumulate d (Hd : okdescr d) c axes s ax : Forall (fun a => (a < length s)%nat) axes -> (ax < length s)%nat ->
@@ -24,12 +30,28 @@ Theorem C12_swap_and_inverse_cancel d (Hd : okdescr d) c s ax : (ax < length s)%
   nth ax (add_charge_swaps d (gneg d c) [ax] (add_charge_swaps d c [ax] s)) (gzero d) = gzero d.
 Proof. exact (swap_and_inverse_cancel d Hd c s ax). Qed.
 
+(* --- the fermionic string of a 2-site measurement passes every site, listed or not --- *)
+Theorem C12_string_independent_of_listing : Forall WindowModel.string_independent_of_listing WindowGen.window_programs.
+Proof. repeat constructor; vm_compute; reflexivity. Qed.
+Theorem C12_listed_site_measured_once_with_operator : Forall WindowModel.measures_once_with_operator WindowGen.window_programs.
+Proof. repeat constructor; eexists; split; vm_compute; reflexivity. Qed.
+Theorem C12_same_string_in_both_sweeps :
+  WindowModel.sw (WindowModel.run false WindowGen.rows_same_line) = WindowModel.sw (WindowModel.run false WindowGen.rows_later_line) /\
+  WindowModel.sw (WindowModel.run false WindowGen.cols_same_line) = WindowModel.sw (WindowModel.run false WindowGen.cols_later_line).
+Proof. split; vm_compute; reflexivity. Qed.
+Example C12_window_nonvacuous : length WindowGen.window_programs = 4%nat /\
+  WindowModel.sw (WindowModel.run false WindowGen.rows_same_line) = [1; 0; 0; 0; 0; 0; 0; 1; 0; 1]%Z.
+Proof. split; vm_compute; reflexivity. Qed.
+
 Example C12_nonvacuous :
   run_swaps [None] [([1]%Z, [1; 6]%nat); ([0]%Z, [6]%nat); ([-1]%Z, [9; 1]%nat)] (no_swaps [None]) =
   [[0]; [0]; [0]; [0]; [0]; [0]; [1]; [0]; [0]; [-1]]%Z.
 Proof. vm_compute. reflexivity. Qed.
 
 Print Assumptions C12_swaps_accumulate.
+Print Assumptions C12_string_independent_of_listing.
+Print Assumptions C12_listed_site_measured_once_with_operator.
+Print Assumptions C12_same_string_in_both_sweeps.
 Print Assumptions C12_swaps_commute.
 Print Assumptions C12_second_swap_adds.
 Print Assumptions C12_swap_and_inverse_cancel.
